@@ -45,6 +45,93 @@ def script_for(i, c):
     return {"id": "id-%d" % i, "cfg": cfg, "steps": steps}
 
 
+def process_level(sd):
+    """the real cmd/helios binary (its own handler composition: middleware, plugin chain, balancer, servers): one
+    request per case, a recording backend; returns observation records in the vocabulary of spec/IdHeaders.tla"""
+    import subprocess, socket, threading, time, http.server
+    env = dict(vlib.GOENV, GOCACHE=os.environ.get("GOCACHE", "/var/tmp/helios-verif-gocache"))
+    binp = os.path.join(sd, "helios")
+    p = subprocess.run(["go", "build", "-o", binp, "./cmd/helios"], cwd=vlib.REPO, env=env, stdout=subprocess.PIPE, stderr=subprocess.STDOUT, text=True)
+    if p.returncode != 0:
+        raise vlib.FrameworkError("cannot build cmd/helios: " + p.stdout[-1500:])
+    seen = {}
+
+    class B(http.server.BaseHTTPRequestHandler):
+        def log_message(self, *a):
+            pass
+
+        def _do(self):
+            n = int(self.headers.get("Content-Length") or 0)
+            if n:
+                self.rfile.read(n)
+            seen[self.headers.get("X-Case", "?")] = {k.lower(): self.headers.get_all(k) for k in set(self.headers.keys())}
+            self.send_response(200); self.send_header("Content-Length", "2"); self.end_headers(); self.wfile.write(b"ok")
+        do_GET = do_POST = _do
+    http.server.ThreadingHTTPServer.handle_error = lambda *a, **k: None
+    srv = http.server.ThreadingHTTPServer(("127.0.0.1", 0), B)
+    threading.Thread(target=srv.serve_forever, daemon=True).start()
+
+    def free():
+        s = socket.socket(); s.bind(("127.0.0.1", 0)); q = s.getsockname()[1]; s.close(); return q
+    out = []
+    k = 0
+    for hdr in ("default", "custom"):
+        for rval in ("absent", "punct"):
+            for path in ("proxied", "plugin401", "toolarge413", "limited429"):
+                k += 1
+                c = {"reqOn": True, "traceOn": True, "hdr": hdr, "rval": rval, "tval": "absent", "path": path, "plugin": False, "bown": False}
+                rname = "X-Correlation-ID" if hdr == "custom" else "X-Request-ID"
+                tname = "X-B3-TraceId" if hdr == "custom" else "X-Trace-ID"
+                port = free()
+                y = "server:\n  port: %d\nbackends:\n  - name: \"b1\"\n    address: \"http://127.0.0.1:%d\"\nload_balancer:\n  strategy: \"round_robin\"\n" % (port, srv.server_address[1])
+                if path == "limited429":
+                    y += "rate_limit:\n  enabled: true\n  max_tokens: 1\n  refill_rate_seconds: 3600\n"
+                y += "logging:\n  level: \"error\"\n  format: \"json\"\n  request_id:\n    enabled: true\n    header: \"%s\"\n  trace:\n    enabled: true\n    header: \"%s\"\n" % (rname, tname)
+                if path == "plugin401":
+                    y += "plugins:\n  enabled: true\n  chain:\n    - name: custom-auth\n      config:\n        apiKey: \"k1\"\n"
+                if path == "toolarge413":
+                    y += "plugins:\n  enabled: true\n  chain:\n    - name: size_limit\n      config:\n        max_request_body: 16\n        max_response_body: 100000\n"
+                cp = os.path.join(sd, "idproc.yaml")
+                open(cp, "w").write(y)
+                proc = subprocess.Popen([binp, "-config", cp], stdout=subprocess.DEVNULL, stderr=subprocess.DEVNULL)
+                try:
+                    for _ in range(100):
+                        try:
+                            socket.create_connection(("127.0.0.1", port), timeout=0.2).close(); break
+                        except OSError:
+                            time.sleep(0.05)
+                    import http.client
+
+                    def ask(body=None, extra=None):
+                        hc = http.client.HTTPConnection("127.0.0.1", port, timeout=5)
+                        h = {"X-Case": "p%d" % k}
+                        h.update(extra or {})
+                        hc.request("POST" if body else "GET", "/x", body=body, headers=h)
+                        r = hc.getresponse(); r.read()
+                        res = (r.status, {n.lower(): r.headers.get_all(n) for n in set(r.headers.keys())})
+                        hc.close()
+                        return res
+                    sent = {}
+                    if rval == "punct":
+                        sent[rname] = VALS["punct"]
+                    if path == "limited429":
+                        ask()
+                        seen.pop("p%d" % k, None)
+                    if path == "plugin401":
+                        sent["X-API-Key"] = "wrong"
+                    status, rh = ask(body=b"x" * 100 if path == "toolarge413" else None, extra=sent)
+                    bh = seen.get("p%d" % k)
+                    o = {"rin": [sent[rname]] if rname in sent else [], "tin": [],
+                         "rb": (bh or {}).get(rname.lower(), []) or [], "tb": (bh or {}).get(tname.lower(), []) or [],
+                         "rc": rh.get(rname.lower(), []) or [], "tc": rh.get(tname.lower(), []) or [],
+                         "dispatched": bh is not None, "status": status, "process": True}
+                    out.append({"c": c, "o": o})
+                finally:
+                    proc.kill(); proc.wait()
+    srv.shutdown()
+    return out
+
+
 def wire(chk, sd):
     """socket level: the relay exchanges of spec/Relay.tla (every status class incl. interim 1xx, every body
     framing, plugins on/off) through the real server; the final response must carry both IDs"""
@@ -110,6 +197,9 @@ def run(tier):
         recs.append({"burst": {"n": b["n"], "rids": b["rids"], "tids": b["tids"]}})
         if b["mismatch"]:
             recs.append({"burst": {"n": b["n"], "rids": ["backend-saw-different-id"] * 2, "tids": b["tids"][:2]}})
+    prec = process_level(sd)
+    chk.cov["process_level_cases"] = len(prec)
+    recs += prec
     jp = os.path.join(sd, "ids.joined.ndjson")
     vlib.write_ndjson(jp, recs)
     chk.cov["traces_validated_against_impl"] = len(recs)
